@@ -116,7 +116,7 @@ claim('C36', 'E2', 'exhaustive enumeration of event orders (up to 4-5 events: ti
       'Expiry times are unix seconds, so the reference model has a 1 s (+ presence interval) undetermined window in which either outcome is accepted.')
 
 e1('C22', 'a protocol-following map client (state pages, stream pages, live transition or recovery join; page size 1-2) against a writer thread doing up to 3 of publish / remove / clear / key expiry / stream expiry on the real node and Memory map broker', 'Every interleaving within the bound over ephemeral / recoverable / persistent modes, StreamSize 2 and 100, tags filter on/off; at quiescence the client map equals the broker state restricted to admitted keys, or the client was told (unrecoverable position / insufficient state / state invalidated); recovered=true never hides an undelivered change.')
-e1('C38', 'channel medium options (KeepLatestPublication, SharedPositionSync; unexported queue / broadcast delay reported separately) with two broadcasts, position checks with stale / valid positions, medium shutdown on last unsubscribe, racing subscribers', 'Every interleaving within the bound (0-2) of six scenarios with at most two subscribers; per positioned subscriber the C01 offset oracle, the MaxUint64 sentinel never reaches a client, a detected loss ends every positioned subscriber, non-positioned subscribers are untouched. Harness pubqueuex adds every operation sequence (length <= 12-14 over Add / Remove / Close, initial capacities 1-3) on the medium's ring-buffer queue against a slice model (FIFO across grow and shrink steps, Len / Size accounting).')
+e1('C38', 'channel medium options (KeepLatestPublication, SharedPositionSync; unexported queue / broadcast delay reported separately) with two broadcasts, position checks with stale / valid positions, medium shutdown on last unsubscribe, racing subscribers', 'Every interleaving within the bound (0-2) of six scenarios with at most two subscribers; per positioned subscriber the C01 offset oracle, the MaxUint64 sentinel never reaches a client, a detected loss ends every positioned subscriber, non-positioned subscribers are untouched. Harness pubqueuex adds every operation sequence (length <= 12-14 over Add / Remove / Close, initial capacities 1-3) on the medium ring-buffer queue against a slice model (FIFO across grow and shrink steps, Len / Size accounting).')
 
 NA = {
  'C18': 'needs a Redis server (or faithful emulator) to execute the Redis broker; none exists in the sealed sandbox, so Redis-vs-Memory agreement cannot be explored',
